@@ -23,8 +23,9 @@
 //! * [`deterministic_on`]`(&Query, &Db) -> bool` (dynamic: no LIMIT over ties, no order-sensitive
 //!   window over distinguishable tied rows; evaluation succeeded), [`deterministic`]`(&Query) -> bool`
 //!   (static, conservative: every LIMIT/OFFSET sits under an ORDER BY that lists every output column;
-//!   windows only of the forms whose total order the generator guarantees — what `gen` emits with
-//!   `GenConfig::deterministic`).
+//!   order-sensitive windows carry an ORDER BY — what `gen` emits with `GenConfig::topk_ties = false`).
+//!   With more than one window call in a select, *any* tie under an order-sensitive call is reported as
+//!   non-deterministic (identical tied rows are distinguishable through the other call's output).
 //! * Row-level expressions for other oracles: `expr::`[`eval_expr`]`(&Expr, &impl ExprCtx)`,
 //!   [`RowCtx`]`::new(&cols, &row)`, and the scalar kernels `arith`, `compare`, `and3/or3/not3`, `in3`,
 //!   `quantified3`, `like_match`, `cast`.
@@ -34,9 +35,12 @@
 //! **Comparison** (`cmp`): [`check_result`]`(&RefResult, &got_rows)` (multiset + sortedness + tie-aware
 //! top-k), `multiset_diff`, `sequence_diff`, `sortedness_violation`, `value_matches`, `fmt_rows`.
 //!
-//! **Generator** (`gen`): [`GenConfig`] (feature switches, depth, schema), [`query_strategy`]`(cfg)`,
-//! [`tables_strategy`]`(cfg)`, [`case_strategy`]`(cfg) -> BoxedStrategy<SqlCase>`;
-//! [`SqlCase`]`{tables: Vec<Table>, query: Query}`; [`features`]`(&Query) -> Vec<String>` (label set).
+//! **Generator** (`gen`): [`GenConfig`]`::standard(n_tables, max_rows, depth)` (feature switches, depth, schema),
+//! [`query_strategy`]`(cfg)`, [`tables_strategy`]`(cfg)`, [`case_strategy`]`(cfg) -> BoxedStrategy<SqlCase>`,
+//! [`build_query`]`(cfg, tape: Vec<u8>)`; [`SqlCase`]`{tables: Vec<Table>, query: Query}`;
+//! [`features`]`(&Query) -> Vec<String>` (label set), [`is_correlated`], [`has_outer_refs`].
+//! The query is built from a variable-length `Vec<u8>` choice tape (simplest alternative at 0, exhausted tape =
+//! simplest choice), so proptest shrinking (delete / zero cells) yields small queries.
 //!
 //! # Semantics implemented (pinned against the engine with CLI probes; see DESIGN.md Appendix A)
 //! three-valued logic; `ORDER BY` ASC = NULLS LAST, DESC = NULLS FIRST; byte-wise string order;
